@@ -170,7 +170,7 @@ def check(spec, ctx):
 
     pers.generate_end_end_distances = wrapped
     try:
-        res = gc.run_gen_coords(spec, ctx)
+        res = gc.run_gen_coords(spec, ctx, timeout=8)
     finally:
         pers.generate_end_end_distances = orig_gen
     if res.exc is not None:
